@@ -276,4 +276,45 @@ theorem mpn_powm_correct_pinned (thr mthr : Nat) (pp1 : P1) (hpp1 : P1Spec pp1) 
     (fun _ => bnm1NextSize_bounds mp.length hn) hitch hbinv
   ⟨h.1, h.2.1⟩
 
+/-- mpn_mulmod_bnm1_next_size (hence mpn_binvert_itch = `rn + mpn_mulmod_bnm1_itch (rn)` = `6·rn + 220`) is monotone:
+    the rounding granules of mpir_fft_adjust_limbs are powers of two that divide the next power of two above the
+    operand, so the value never jumps back when the depth changes (pinned constants). -/
+theorem next_size_mono (n1 n2 : Nat) (h : n1 ≤ n2) :
+    Mpir.Hgcd.bnm1NextSize 128 19 [4, 3, 3, 4, 3, 3, 3, 3, 3, 2, 2, 2, 2, 2, 2, 2, 2, 1, 1] n1 ≤
+    Mpir.Hgcd.bnm1NextSize 128 19 [4, 3, 3, 4, 3, 3, 3, 3, 3, 2, 2, 2, 2, 2, 2, 2, 2, 1, 1] n2 :=
+  bnm1NextSize_mono n1 n2 h
+
+/-- mpn_binvert_itch (binvert.c:53) with the pinned mpn_mulmod_bnm1_next_size: `rn + mpn_mulmod_bnm1_itch (rn, ..)` -/
+def binvItchP (k : Nat) : Nat :=
+  Mpir.Hgcd.bnm1NextSize 128 19 tab19 k + (5 * Mpir.Hgcd.bnm1NextSize 128 19 tab19 k + 220)
+
+/-- **The scratch mpz_powm hands to mpn_powm, odd AND even modulus** (mpz/powm.c:176-193): with `n = ABSIZ (m)`, `ncnt` the
+    limbs of the power-of-two part, `mp` the odd part (`nodd = mp.length ≤ n` limbs), the area after `rp = tp; tp += n` has
+    `2n + MAX (mpn_binvert_itch (MAX (ncnt, nodd)), 2n)` limbs for an even modulus (`extra = 2n`) and
+    `MAX (mpn_binvert_itch (nodd), 2n)` for an odd one (`extra = 0`, `ncnt = 0`).  Both are enough for mpn_powm on the
+    odd part — the even case needs `mpn_binvert_itch (nodd) ≤ mpn_binvert_itch (MAX (ncnt, nodd))`, i.e. the
+    monotonicity of mpn_mulmod_bnm1_next_size. -/
+theorem mpz_powm_scratch_ok_even (thr mthr : Nat) (pp1 : P1) (hpp1 : P1Spec pp1) (n ncnt extra : Nat) (bp ep mp : List Nat)
+    (hep : Norm ep) (hne : ep ≠ []) (hmp : Limbs mp) (hn : 1 ≤ mp.length) (hodd : val mp % 2 = 1)
+    (hnodd : mp.length ≤ n) :
+    (mpnPowmMemR thr mthr pp1 (Mpir.Hgcd.bnm1NextSize 128 19 tab19) binvItchP
+      (extra + max (binvItchP (max ncnt mp.length)) (2 * n)) bp ep mp).2 = true ∧
+    (mpnPowmMemR thr mthr pp1 (Mpir.Hgcd.bnm1NextSize 128 19 tab19) binvItchP
+      (extra + max (binvItchP (max ncnt mp.length)) (2 * n)) bp ep mp).1 =
+      toLimbs mp.length (val bp ^ val ep % val mp) := by
+  have hmono : binvItchP mp.length ≤ binvItchP (max ncnt mp.length) := by
+    have := bnm1NextSize_mono mp.length (max ncnt mp.length) (le_max_right _ _)
+    unfold binvItchP
+    omega
+  have h1 : 2 * mp.length ≤ extra + max (binvItchP (max ncnt mp.length)) (2 * n) := by
+    have := le_max_right (binvItchP (max ncnt mp.length)) (2 * n); omega
+  have h2 : binvItchP mp.length ≤ extra + max (binvItchP (max ncnt mp.length)) (2 * n) := by
+    have := le_max_left (binvItchP (max ncnt mp.length)) (2 * n); omega
+  exact mpn_powm_correct_pinned thr mthr pp1 hpp1 binvItchP _ bp ep mp hep hne hmp hn hodd h1 (fun _ => h2)
+
+-- non-vacuity: m = 2^192·(9·B + 7): n = 5, ncnt = 3 (+1 for the bit shift would be cnt = 0 here), nodd = 2, redc_n branch forced
+example : (mpnPowmMemR 1 12 Fft.mulmod_2expp1_basecase (Mpir.Hgcd.bnm1NextSize 128 19 tab19) binvItchP
+    (2 * 5 + max (binvItchP (max 3 2)) (2 * 5)) [3, 4, 5] [77] [7, 9]) = (toLimbs 2 (val [3, 4, 5] ^ 77 % val [7, 9]), true) := by
+  decide +kernel
+
 end Mpir.Mm1
